@@ -8,7 +8,9 @@ RULE = ("sets of 2-4 biases (harmonic, harmonicWalls, linear, histogram, metadyn
         "disjoint subsets run in separate instances on the same trajectory for 3n+2 steps; ABF is coupled through "
         "subtractAppliedForce with closed-loop total forces; non-trivial = at least two force-applying biases share a variable; "
         "distinct by op text")
-ASSUMPTIONS = ["time-step factors are set on biases; variables keep factor 1 (ABF requires equal factors, so ABF has factor 1)"]
+ASSUMPTIONS = ["in the superposition families time-step factors are set on biases and variables keep factor 1 (ABF requires equal factors, so ABF has "
+               "factor 1); the 'radial' family gives the *variable* a factor n in {1,2,3,4} (a distance from the origin with a harmonic restraint "
+               "and, in two thirds of the cases, an ABF bias with or without hideJacobian, all sharing the factor; current-step total forces)"]
 KB = 0.001987191
 
 
@@ -54,10 +56,66 @@ def bias_conf(rng, kind, name, cvs, w, tsf):
     return conf, ml
 
 
+def radial_case(rng, k):
+    """a variable with its own time-step factor and a Jacobian term: distance of one atom from the origin (atom kept on the z axis)"""
+    n = rng.choice([1, 2, 3, 4]) if k % 2 else rng.choice([2, 3])
+    mode = ["hide", "abf", "plain"][(k // 6) % 3]       # ABF with hideJacobian / ABF without / no ABF (no Jacobian term at all)
+    T = rng.choice([300.0, 450.0, 1000.0]); kT = KB * T
+    w = rng.choice([0.5, 1.0]); kf = rng.choice([0.5, 2.0, 10.0]); c = rng.uniform(1.0, 4.0)
+    tl = (" timeStepFactor %d\n" % n) if n > 1 else ""
+    conf = ("colvar {\n name d\n" + tl + " width %s\n lowerBoundary 0.25\n upperBoundary 8.25\n distance {\n  group1 { atomNumbers 1 }\n"
+            "  group2 { dummyAtom (0.0, 0.0, 0.0) }\n  oneSiteTotalForce on\n }\n}\n") % num(w)
+    bconf = "harmonic {\n name hb\n" + tl + " colvars d\n forceConstant %s\n centers %s\n}\n" % (num(kf), num(c))
+    if mode != "plain":
+        bconf += "abf {\n name ab\n" + tl + " colvars d\n fullSamples 1000000\n integrate off\n%s}\n" % (" hideJacobian on\n" if mode == "hide" else "")
+    it0 = 0 if k % 4 < 2 else rng.randint(1, 9)
+    nsteps = 3 * n + 2 + rng.randint(0, 4)
+    lines = ["m.new 1", "m.opt tf_same 1", "m.opt temp %s" % fbits(T), cfg(conf), cfg(bconf),
+             "V.radial d 0 kT=%s tsf=%d jac=%d hide=%d k=%s c=%s w=%s" % (fbits(kT), n, 0 if mode == "plain" else 1, 1 if mode == "hide" else 0,
+                                                                       fbits(kf), fbits(c), fbits(w))]
+    if it0:
+        lines.append("m.opt it %d" % it0)
+    z = rng.uniform(1.0, 5.0) * rng.choice([-1.0, 1.0])
+    traj = []; marks = []
+    for t in range(nsteps):
+        z += rng.uniform(-0.3, 0.3)
+        if abs(z) < 0.6:
+            z = 0.6 if z > 0 else -0.6
+        lines += [pos(0, 0.0, 0.0, z), tf(0, rng.uniform(-2, 2), rng.uniform(-2, 2), rng.uniform(-2, 2)), "m.step"]
+        marks.append(len(lines) + 1)
+        lines.append("v.force d 0")
+        traj.append(z)
+    return {"lines": lines, "meta": {"family": "radial", "n": n, "mode": mode, "kT": kT, "w": w, "k": kf, "c": c, "it0": it0, "traj": traj,
+                                     "marks": marks, "nsteps": nsteps}, "nontrivial": n > 1}
+
+
+def radial_oracle(case, out):
+    m = case["meta"]; n = m["n"]
+    for t, z in enumerate(m["traj"]):
+        it = m["it0"] + t
+        d = abs(z); sgn = 1.0 if z > 0 else -1.0
+        inst = -m["k"] / (m["w"] ** 2) * (d - m["c"]) - (2.0 * m["kT"] / d if m["mode"] == "hide" else 0.0)
+        exp = n * inst * sgn if (n <= 1 or it % n == 0) else 0.0
+        rc = out.get((m["marks"][t] - 1, "rc", 1))
+        if rc is None or rc[0] != "i0":
+            return ["the library reported an error at step %d of a valid configuration (variable with time-step factor %d, %s)" % (t, n, m["mode"])]
+        v = vals(out, m["marks"][t], "vfz")
+        if v is None:
+            return ["no force reported for the variable at step %d" % t]
+        if abs(v[0] - exp) > 1e-9 * max(1.0, abs(exp)):
+            return ["step %d (absolute %d): the atom of a variable with time-step factor %d (%s) got the z-force %r; %d x (restraint force%s) at this "
+                    "geometry is %r, so the impulse over %d steps is not that of an every-step application" % (
+                        t, it, n, {"hide": "ABF with hideJacobian", "abf": "ABF", "plain": "no ABF"}[m["mode"]], v[0], n if (n <= 1 or it % n == 0) else 0,
+                        " - 2kT/d" if m["mode"] == "hide" else "", exp, n)]
+    return []
+
+
 def gen(rng, tier):
     n = 30 if tier == "quick" else 300
     cases = []
     for k in range(n):
+        if k % 6 == 5 or k % 6 == 2:
+            cases.append(radial_case(rng, k)); continue
         ncv = rng.randint(1, 3)
         w = [rng.choice([0.5, 1.0]) for _ in range(ncv)]
         with_abf = (k % 5) == 3
@@ -118,9 +176,12 @@ def gen(rng, tier):
 
 
 def distribution(cases):
-    d = {"kinds": {}, "tsf": {}, "abf_cases": 0, "steps": 0}
+    d = {"kinds": {}, "tsf": {}, "abf_cases": 0, "steps": 0, "radial": {}}
     for c in cases:
         m = c["meta"]
+        if m.get("family") == "radial":
+            key = "%s/n=%d" % (m["mode"], m["n"]); d["radial"][key] = d["radial"].get(key, 0) + 1; d["steps"] += m["nsteps"]
+            continue
         if "biases" not in m:
             continue
         for kind, cvs, tsf in m["biases"]:
@@ -138,6 +199,8 @@ def oracle(case, out):
     """(A+B) = A + B on the implementation itself: energy and per-atom force at every step; a bias with factor n contributes only on
     multiples of n"""
     m = case["meta"]; viol = []
+    if m.get("family") == "radial":
+        return radial_oracle(case, out)
     # impulse: a group made only of stateless restraints must apply sum_b [t % n_b == 0] n_b F_b(x(t)) (closed forms)
     stateless = ("harmonic", "linear", "walls")
     groups = {"AB": list(range(len(m["biases"]))), "A": list(range(m["split"])), "B": list(range(m["split"], len(m["biases"])))}
